@@ -7,10 +7,15 @@
 //          (each of the above runs in a new actor, which parks at the HoldLock entry gate)
 //          [5 i] actor i continues from the gate it is parked at
 //          [6 i] cancel the context of waiter i      [7 i m] error channel of waiter i: 0 send nil, 1 send error, 2 close
+//          [8 init hc] ccontainer.WatchChanges(ctx, init, ccontainer.ToWatchable(ctr), cb, errCh) in a new actor ("watcher";
+//                          events 5, 6, 7 apply to it as to a waiter, 6 and 7 also while it is inside its callback).  The
+//                          callback is harness-owned: it parks and returns what event 9 prescribes.
+//          [9 i r] the callback of watcher i returns: 0 nil, 1 an error
 // Observation after every event: one number per actor, status + 16*value
 //          1 at a HoldLock entry gate, 7 at the exit gate of the sampling section (waiters only), 2 blocked in select,
 //          3 returned ok, 4 returned context.Canceled, 5 returned the error channel's error, 6 returned the validator's
-//          error, 8 returned some other error, 9 panicked
+//          error, 8 returned some other error, 9 panicked, 10 inside the WatchChanges callback (value = its argument),
+//          11 WatchChanges returned the callback's error, 12 WatchChanges returned nil
 //
 // Go's select picks at random among ready cases, so the harness never lets two cases of one waiter be ready:
 // a waiter parks at the exit gate only if neither its context is cancelled nor its error channel has something
@@ -33,10 +38,11 @@ import (
 )
 
 const (
-	kGet  = 1
-	kSet  = 2
-	kSwap = 3
-	kWait = 4
+	kGet   = 1
+	kSet   = 2
+	kSwap  = 3
+	kWait  = 4
+	kWatch = 8
 
 	errCap = 8
 )
@@ -44,6 +50,7 @@ const (
 var (
 	errSent  = errors.New("verif: error channel error")
 	errValid = errors.New("verif: validator error")
+	errCb    = errors.New("verif: callback error")
 )
 
 type adata struct {
@@ -52,6 +59,8 @@ type adata struct {
 	errCh     chan error
 	closed    bool
 	val       uint64
+	cbErr     bool // what the parked callback returns when released
+	cbN       int  // number of callback invocations
 }
 
 type sys struct {
@@ -59,7 +68,8 @@ type sys struct {
 	ctr  *ccontainer.CContainer[uint64]
 	w    *hist.W
 	cfg  []uint64
-	prof int // generation profile: 0 mixed, 1 waiter-heavy, 2 writer-heavy
+	prof int  // generation profile: 0 mixed, 1 waiter-heavy, 2 writer-heavy
+	down bool // teardown: callbacks return an error so that every watcher ends
 }
 
 // cumulative weights (out of 100) of: get, set, swap, wait, step, cancel; the rest is error-channel events
@@ -138,7 +148,7 @@ func newSys(w *hist.W, cfg []uint64) *sys {
 		case 0:
 			return true
 		case 1:
-			if a.Kind != kWait {
+			if a.Kind != kWait && a.Kind != kWatch {
 				return false
 			}
 			d := a.Data.(*adata)
@@ -158,6 +168,8 @@ func (s *sys) status() []uint64 {
 			out[i] = 9
 		case a.Done():
 			out[i] = uint64(a.Res) + 16*a.Data.(*adata).val
+		case a.InUser() != 0:
+			out[i] = 10 + 16*a.Data.(*adata).val
 		case a.Parked():
 			if a.Site() == 1 {
 				out[i] = 7
@@ -181,12 +193,14 @@ func classify(err error) int {
 		return 5
 	case err == errValid:
 		return 6
+	case err == errCb:
+		return 11
 	}
 	return 8
 }
 
 func (s *sys) waiter(i int) (*ctl.Actor, *adata, bool) {
-	if i >= len(s.c.Acts) || s.c.Acts[i].Kind != kWait {
+	if i >= len(s.c.Acts) || (s.c.Acts[i].Kind != kWait && s.c.Acts[i].Kind != kWatch) {
 		return nil, nil, false
 	}
 	a := s.c.Acts[i]
@@ -311,6 +325,49 @@ func (s *sys) exec(ev []uint64) (obs []uint64, ok bool) {
 			close(d.errCh)
 		}
 		synctest.Wait()
+	case 8:
+		if len(ev) != 3 || ev[2] > 1 {
+			return nil, false
+		}
+		initial := ev[1]
+		ctx, cancel := context.WithCancel(context.Background())
+		d := &adata{cancel: cancel}
+		var errCh <-chan error
+		if ev[2] == 1 {
+			d.errCh = make(chan error, errCap)
+			errCh = d.errCh
+		}
+		a := s.c.NewActor(kWatch)
+		a.Data = d
+		s.c.Go(a, func(a *ctl.Actor) {
+			cb := func(v uint64) error {
+				d.val = v
+				d.cbN++
+				s.c.ParkUser(a, 1)
+				if d.cbErr || s.down {
+					return errCb
+				}
+				return nil
+			}
+			err := ccontainer.WatchChanges(ctx, initial, ccontainer.ToWatchable(s.ctr), cb, errCh)
+			d.val = 0
+			if err == nil {
+				a.Res = 12
+			} else {
+				a.Res = classify(err)
+			}
+		})
+		synctest.Wait()
+	case 9:
+		if len(ev) != 3 || ev[2] > 1 || ev[1] >= uint64(len(s.c.Acts)) {
+			return nil, false
+		}
+		a := s.c.Acts[ev[1]]
+		if a.Kind != kWatch || a.Done() || a.InUser() == 0 {
+			return nil, false
+		}
+		a.Data.(*adata).cbErr = ev[2] == 1
+		s.c.StepUser(a)
 	default:
 		return nil, false
 	}
@@ -327,9 +384,15 @@ func smallVal(r *rand.Rand) uint64 {
 // gen picks the next event among those the implementation allows now.
 func (s *sys) gen(r *rand.Rand, maxActs int) []uint64 {
 	var gates, cancellable, errable []int
+	incb := map[int]bool{}
 	for i, a := range s.c.Acts {
 		if !a.Done() && a.Parked() {
 			gates = append(gates, i)
+		}
+		if !a.Done() && a.Kind == kWatch && a.InUser() != 0 {
+			// a watcher parked inside its callback is stepped like a gate (event 9 instead of 5)
+			gates = append(gates, i)
+			incb[i] = true
 		}
 		if s.canCancel(i) {
 			cancellable = append(cancellable, i)
@@ -360,6 +423,17 @@ func (s *sys) gen(r *rand.Rand, maxActs int) []uint64 {
 				k = 0
 			}
 			return []uint64{3, f, k}
+		case x < pw[3] && room && r.IntN(3) == 0:
+			// WatchChanges: initial value empty / small (often equal to the content, often not)
+			initial := uint64(0)
+			if r.IntN(5) >= 2 {
+				initial = smallVal(r)
+			}
+			hc := uint64(0)
+			if r.IntN(3) > 0 {
+				hc = 1
+			}
+			return []uint64{8, initial, hc}
 		case x < pw[3] && room:
 			kind := uint64(r.IntN(4))
 			var a, b uint64
@@ -378,7 +452,15 @@ func (s *sys) gen(r *rand.Rand, maxActs int) []uint64 {
 			}
 			return []uint64{4, kind, a, b, hc}
 		case x < pw[4] && len(gates) > 0:
-			return []uint64{5, uint64(gates[r.IntN(len(gates))])}
+			g := gates[r.IntN(len(gates))]
+			if incb[g] {
+				ret := uint64(0)
+				if r.IntN(7) == 0 {
+					ret = 1
+				}
+				return []uint64{9, uint64(g), ret}
+			}
+			return []uint64{5, uint64(g)}
 		case x < pw[5] && len(cancellable) > 0:
 			return []uint64{6, uint64(cancellable[r.IntN(len(cancellable))])}
 		case x >= pw[5] && len(errable) > 0:
@@ -393,6 +475,7 @@ func (s *sys) gen(r *rand.Rand, maxActs int) []uint64 {
 }
 
 func (s *sys) teardown() {
+	s.down = true
 	for _, a := range s.c.Acts {
 		if d, ok := a.Data.(*adata); ok && d != nil && d.cancel != nil {
 			d.cancel()
@@ -404,7 +487,7 @@ func (s *sys) teardown() {
 }
 
 func (s *sys) count(ev []uint64, prev, obs []uint64) {
-	names := map[uint64]string{1: "get", 2: "set", 3: "swap", 4: "wait", 5: "step", 6: "cancel", 7: "errch"}
+	names := map[uint64]string{1: "get", 2: "set", 3: "swap", 4: "wait", 5: "step", 6: "cancel", 7: "errch", 8: "watch", 9: "cbret"}
 	s.w.Count("ev."+names[ev[0]], 1)
 	switch ev[0] {
 	case 3:
@@ -413,6 +496,21 @@ func (s *sys) count(ev []uint64, prev, obs []uint64) {
 		s.w.Count(fmt.Sprintf("ev.wait.kind%d", ev[1]), 1)
 	case 7:
 		s.w.Count(fmt.Sprintf("ev.errch.m%d", ev[2]), 1)
+		if i := int(ev[1]); i < len(prev) && prev[i]%16 == 10 {
+			s.w.Count("sit.watch.errch_event_inside_callback", 1)
+		}
+	case 6:
+		if i := int(ev[1]); i < len(prev) && prev[i]%16 == 10 {
+			s.w.Count("sit.watch.cancel_inside_callback", 1)
+		}
+	case 8:
+		if ev[1] == 0 {
+			s.w.Count("ev.watch.initial_empty", 1)
+		} else {
+			s.w.Count("ev.watch.initial_nonempty", 1)
+		}
+	case 9:
+		s.w.Count(fmt.Sprintf("ev.cbret.r%d", ev[2]), 1)
 	case 5:
 		i := int(ev[1])
 		if i < len(prev) && i < len(obs) {
@@ -446,6 +544,31 @@ func (s *sys) count(ev []uint64, prev, obs []uint64) {
 				s.w.Count("sit.canceled_while_blocked", 1)
 			case 5:
 				s.w.Count("sit.errch_error_while_blocked", 1)
+			}
+		}
+		if s.c.Acts[i].Kind == kWatch && i < len(prev) && prev[i]%16 != c%16 {
+			d := s.c.Acts[i].Data.(*adata)
+			switch c % 16 {
+			case 10:
+				s.w.Count("sit.watch.callback_entered", 1)
+				if d.cbN == 1 && prev[i] == 7 {
+					s.w.Count("sit.watch.first_sample_differs_from_initial", 1)
+				}
+				if d.cbN >= 2 {
+					s.w.Count("sit.watch.callback_entered_in_a_later_round", 1)
+				}
+				if prev[i] == 1 {
+					s.w.Count("sit.watch.delivery_with_cancel_or_error_pending", 1)
+				}
+			case 2:
+				if d.cbN == 0 && prev[i] == 7 {
+					s.w.Count("sit.watch.first_sample_equals_initial", 1)
+				}
+				if d.cbN >= 1 {
+					s.w.Count("sit.watch.blocked_in_a_later_round", 1)
+				}
+			case 4, 5, 11, 12, 3, 6, 8:
+				s.w.Count(fmt.Sprintf("ret.watch.%d", c%16), 1)
 			}
 		}
 		if i < len(prev) && (prev[i]%16 < 3 || prev[i] == 7) && c%16 >= 3 && c%16 <= 6 && s.c.Acts[i].Kind == kWait {
